@@ -459,17 +459,16 @@ def run_continuous(cfg):
         out["bad_members"] = bad
         out["nbad"] = nbad if cfg["kind"] != "hist" else len(bad)
         out["near_members"] = near_members
-        # chi^2 cells.  Samples within the polygonisation margin of a disc / sector boundary are left out of the statistic (and counted):
-        # the cells are cut from the polygons, the primitive samplers use the exact curves, so such a sample may fall just outside
-        # the polygon's cells without being outside the region
+        # chi^2 cells.  The cells are cut from the polygons, the primitive samplers use the exact curves: a sample within the polygonisation
+        # margin of a disc / sector boundary may fall just outside the polygon's cells without being outside the region.  Such samples are
+        # counted apart (near_boundary) instead of `outside`; every sample that falls in a cell stays in the statistic
         cells = None
         polys = [poly_of(o_) for o_ in operands]
-        all_pts = pts
-        pts = [p for p in all_pts if not margins.near_any(p)]
+        near = margins.near_any
         if op is None:
             A = cfg["A"]
             if A["kind"] in ("rect", "circle", "sector", "polygon"):
-                cells = planar_cells(polys[0], pts, cfg.get("k", 6))
+                cells = planar_cells(polys[0], pts, cfg.get("k", 6), near)
             elif A["kind"] == "polyline":
                 cells = polyline_cells(A, pts)
             elif A["kind"] == "box":
@@ -480,16 +479,16 @@ def run_continuous(cfg):
         elif all(p is not None for p in polys) and operands[0].z == operands[1].z:
             target = polys[0] & polys[1] if op == "intersect" else (polys[0] | polys[1] if op == "union" else polys[0] - polys[1])
             if target.area > 1e-6:
-                cells = planar_cells(target, pts, cfg.get("k", 6))
+                cells = planar_cells(target, pts, cfg.get("k", 6), near)
         elif all(p is not None for p in polys):
             # planar operands at different heights: the composed set lives on one layer per height
             za, zb = float(operands[0].z), float(operands[1].z)
             layers = [] if op == "intersect" else ([(za, polys[0]), (zb, polys[1])] if op == "union" else [(za, polys[0])])
             if layers:
-                cells = layer_cells(layers, pts, cfg.get("k", 6))
+                cells = layer_cells(layers, pts, cfg.get("k", 6), near)
                 out["overlap_area"] = float((polys[0] & polys[1]).area)
         if cells is not None:
-            cells["near_boundary"] = len(all_pts) - len(pts)
+            cells.setdefault("near_boundary", 0)
             cells["ring_area"] = float(margins.ring_area())
         out["cells"] = cells
         out["size"] = float(reg.size) if getattr(reg, "size", None) is not None else None
@@ -615,7 +614,11 @@ def view_member(view, rho, az, alt, p):
     ok = rho <= D * (1 + 1e-6) + slack
     aslack = 1e-3 + (slack / max(rho, slack) if slack else 0.0)
     if h < math.tau - 0.017:
-        ok = ok and abs(az) <= h / 2 + aslack
+        # the azimuth of a point close to the observer's vertical axis is ill-conditioned: what counts for the tiny object is its DISTANCE
+        # to the bounding half-plane of the wedge, rho cos(alt) sin(excess azimuth), not the azimuth excess itself
+        excess = abs(az) - h / 2
+        lateral = rho * math.cos(alt) * math.sin(min(max(excess, 0.0), math.pi / 2))
+        ok = ok and (excess <= aslack or (slack > 0 and lateral <= slack))
     if v < math.pi - 0.017:
         # the constant-altitude faces are flat triangles between 32 sampled azimuths: they bulge out of the cone by 1 / cos(step / 2)
         lim = math.atan(math.tan(v / 2) / math.cos(h / 31 / 2))
@@ -761,7 +764,7 @@ def run_placement(cfg):
     return out
 
 
-def planar_cells(poly, pts, k):
+def planar_cells(poly, pts, k, near=lambda p: False):
     minx, miny, maxx, maxy = poly.bounds
     dx, dy = (maxx - minx) / k, (maxy - miny) / k
     exp, cnt = [], []
@@ -771,18 +774,21 @@ def planar_cells(poly, pts, k):
             cell = shapely.geometry.box(minx + i * dx, miny + j * dy, minx + (i + 1) * dx, miny + (j + 1) * dy)
             exp.append(poly.intersection(cell).area / total)
             cnt.append(0)
-    outside = 0
+    outside = near_out = 0
     for p in pts:
         i = min(k - 1, max(0, int((p[0] - minx) / dx))) if dx > 0 else 0
         j = min(k - 1, max(0, int((p[1] - miny) / dy))) if dy > 0 else 0
         if p[0] < minx - 1e-9 or p[0] > maxx + 1e-9 or p[1] < miny - 1e-9 or p[1] > maxy + 1e-9:
-            outside += 1
+            if near(p):
+                near_out += 1
+            else:
+                outside += 1
             continue
         cnt[i * k + j] += 1
-    return dict(expected=exp, counts=cnt, outside=outside, area=float(total))
+    return dict(expected=exp, counts=cnt, outside=outside, near_boundary=near_out, area=float(total))
 
 
-def layer_cells(layers, pts, k):
+def layer_cells(layers, pts, k, near=lambda p: False):
     """cells of a region made of planar pieces at different heights; expected shares by area over ALL layers"""
     total = sum(poly.area for _, poly in layers)
     exp, cnt, index = [], [], []
@@ -795,7 +801,7 @@ def layer_cells(layers, pts, k):
                 cell = shapely.geometry.box(minx + i * dx, miny + j * dy, minx + (i + 1) * dx, miny + (j + 1) * dy)
                 exp.append(poly.intersection(cell).area / total)
                 cnt.append(0)
-    outside = 0
+    outside = near_out = 0
     for p in pts:
         for z, minx, miny, maxx, maxy, dx, dy, base in index:
             if abs(p[2] - z) < 1e-9 and minx - 1e-9 <= p[0] <= maxx + 1e-9 and miny - 1e-9 <= p[1] <= maxy + 1e-9:
@@ -804,8 +810,11 @@ def layer_cells(layers, pts, k):
                 cnt[base + i * k + j] += 1
                 break
         else:
-            outside += 1
-    return dict(expected=exp, counts=cnt, outside=outside, area=float(total))
+            if near(p):
+                near_out += 1
+            else:
+                outside += 1
+    return dict(expected=exp, counts=cnt, outside=outside, near_boundary=near_out, area=float(total))
 
 
 def prism_cells(cfg, poly, op, pts):
